@@ -381,3 +381,50 @@ func scenarioPushedUnregisteredRedirect(ctx *RunCtx) {
 		ctx.AddStats(g.stats)
 	}
 }
+
+// C17 (and C07): a pushed request whose interaction is IN PROGRESS.  The request_uri is consumed when the
+// interaction starts: replaying it while the policy waits, a request without request_uri (PAR required and
+// optional), the callback, the replay after the code was issued and the callback again.  The two users carry
+// different state values, so that an answer built from the other session is visible in the navigation.
+func scenarioPushedFlowInProgress(ctx *RunCtx) {
+	for _, fl := range []string{"copy", "alias"} {
+		for _, parOpt := range []string{"WithPAR", "WithPARRequired"} {
+			opts := []Opt{{Name: "WithScopes", Scopes: serverScopes}, {Name: "WithAuthorizationCodeGrant"}, {Name: parOpt, Z: 60},
+				{Name: "WithTokenLifetime", Z: 300}}
+			g, err := NewSysGen(ctx.R, WorldSpec{Profile: "openid", Flavour: fl, Static: baseClients(ctx.R), Opts: opts})
+			if err != nil {
+				panic(err)
+			}
+			cred := Cred{ID: 1, OK: true}
+			pa := Params{Redirect: "https://c1.example/cb", RespType: "code", Scopes: "openid email", State: "state-of-alice", Nonce: "n-alice"}
+			pb := Params{Redirect: "https://c1.example/cb2?x=1", RespType: "code", Scopes: "openid", State: "state-of-bob", Nonce: "n-bob"}
+			alice := Pol{Kind: "PolSuccess", Sub: "alice", Granted: "openid email"}
+			bob := Pol{Kind: "PolSuccess", Sub: "bob", Granted: "openid"}
+			redeem := func(h Handle, pol Pol) Obs {
+				return g.do(Op{Kind: "Authorize", Client: 1, Params: Params{RequestURI: h, RespType: "code", Scopes: "openid email", State: "state-of-alice"}, PolicyAvail: true, Pol: pol})
+			}
+			par := g.do(Op{Kind: "Par", Cred: cred, Params: pa})
+			if par.Kind != "Par" {
+				panic(fmt.Sprintf("pushed-flow scenario: push refused: %+v", par))
+			}
+			page := redeem(par.H, Pol{Kind: "PolInProgress"})
+			redeem(par.H, bob)                          // the request_uri again while the policy waits
+			redeem(par.H, Pol{Kind: "PolInProgress"})   // ... and with a policy that would wait too
+			g.do(Op{Kind: "Authorize", Client: 1, Params: pb, PolicyAvail: true, Pol: bob}) // no request_uri at all
+			noURI := pb
+			noURI.Redirect = ""
+			g.do(Op{Kind: "Authorize", Client: 1, Params: noURI, PolicyAvail: true, Pol: bob})
+			if page.Kind == "Page" {
+				fin := g.do(Op{Kind: "Callback", Cb: page.H, Pol: alice})
+				redeem(par.H, bob)
+				g.do(Op{Kind: "Authorize", Client: 1, Params: noURI, PolicyAvail: true, Pol: bob})
+				g.do(Op{Kind: "Callback", Cb: page.H, Pol: bob})
+				if fin.Kind == "Nav" && fin.NCode != 0 {
+					g.do(Op{Kind: "Token", Grant: "authorization_code", Cred: cred, Code: fin.NCode, Redirect: pa.Redirect, HG: "HgOk", BA: "BaApprove"})
+				}
+			}
+			ctx.AddCase(g.Case(fmt.Sprintf("scenario:pushed-flow-in-progress/%s/%s", parOpt, fl)))
+			ctx.AddStats(g.stats)
+		}
+	}
+}
